@@ -5,6 +5,7 @@ import JanetModel.Bytecode.VMPasses
 import JanetModel.Bytecode.VMMovopt
 import JanetModel.Bytecode.VMCallPasses
 import JanetModel.Spec.CallSite
+import JanetModel.Spec.FixedEmit
 
 /-!
 C15 - compiler specialisations of core functions preserve behaviour (theorems only).
@@ -422,6 +423,97 @@ theorem fixed_inline_eq_generic (hnil1 : ∀ v, P.eqv v P.nil = P.isNil v) (hnil
     ∃ code fuel, t.words.map decode = code.map some ∧ exec P code fuel (frameOf P t.slots args) w = some (m w) :=
   fixed_inline_eq_generic_bytecode P hnil1 hnil2 r (List.all_eq_true.mp fixed_rows_ok.1 r hr) t ht args m hm w
 
+
+
+/-! ### the hand-modelled C bodies: regenerated statement skeletons against the ones the model was written for
+
+One theorem per C function, so that a changed body is NAMED by the obligation that fails.  The skeleton (tools/gen/cfuns_skel.py) is
+independent of whitespace, comments, names of parameters / locals, pure helper variables, `(void)` casts; it keeps the control structure,
+the conditions, every emit call (kind, opcode, operands, write flag) and every other effect, in order. -/
+
+theorem skeleton_genericSS_ok : skeletonOf "genericSS" = Skeleton.genericSS := by decide +kernel
+theorem skeleton_genericSSI_ok : skeletonOf "genericSSI" = Skeleton.genericSSI := by decide +kernel
+theorem skeleton_opfunction_ok : skeletonOf "opfunction" = Skeleton.opfunction := by decide +kernel
+theorem skeleton_can_be_imm_ok : skeletonOf "can_be_imm" = Skeleton.can_be_imm := by decide +kernel
+theorem skeleton_can_slot_be_imm_ok : skeletonOf "can_slot_be_imm" = Skeleton.can_slot_be_imm := by decide +kernel
+theorem skeleton_reduce_target_ok : skeletonOf "reduce_target" = Skeleton.reduce_target := by decide +kernel
+theorem skeleton_opreduce_ok : skeletonOf "opreduce" = Skeleton.opreduce := by decide +kernel
+theorem skeleton_compreduce_ok : skeletonOf "compreduce" = Skeleton.compreduce := by decide +kernel
+theorem skeleton_janetc_funopt_ok : skeletonOf "janetc_funopt" = Skeleton.janetc_funopt := by decide +kernel
+theorem skeleton_do_apply_ok : skeletonOf "do_apply" = Skeleton.do_apply := by decide +kernel
+theorem skeleton_do_debug_ok : skeletonOf "do_debug" = Skeleton.do_debug := by decide +kernel
+theorem skeleton_do_error_ok : skeletonOf "do_error" = Skeleton.do_error := by decide +kernel
+theorem skeleton_do_get_ok : skeletonOf "do_get" = Skeleton.do_get := by decide +kernel
+theorem skeleton_do_put_ok : skeletonOf "do_put" = Skeleton.do_put := by decide +kernel
+theorem skeleton_do_yield_ok : skeletonOf "do_yield" = Skeleton.do_yield := by decide +kernel
+theorem skeleton_janet_quick_asm_ok : skeletonOf "janet_quick_asm" = Skeleton.janet_quick_asm := by decide +kernel
+theorem skeleton_janetc_check_nil_form_ok : skeletonOf "janetc_check_nil_form" = Skeleton.janetc_check_nil_form := by decide +kernel
+theorem skeleton_janetc_call_selection_ok : skeletonOf "janetc_call.selection" = Skeleton.janetc_call_selection := by decide +kernel
+
+/-- every C body that has an expected skeleton is present in the regenerated table, and nothing else is -/
+theorem skeleton_names_ok : skeletons.map (·.1) =
+    ["genericSS", "genericSSI", "opfunction", "can_be_imm", "can_slot_be_imm", "reduce_target", "opreduce", "compreduce", "janetc_funopt",
+     "do_apply", "do_debug", "do_error", "do_get", "do_put", "do_yield", "janet_quick_asm", "janetc_check_nil_form", "janetc_call.selection"] := by
+  decide +kernel
+
+/-! ### fixed-arity specialisations as EMITTERS: the emitted instructions, run on the caller's registers, against the generic bytecode -/
+
+/-- ★ obligation on the regenerated skeletons: the opcodes the special handlers emit - in particular `do_get` keeps the looked-up value when
+    it is NOT NIL (`JOP_JUMP_IF_NOT_NIL`), not when it is truthy -/
+theorem special_ops_ok : specialOpsOk = true := by decide +kernel
+
+/-- for a row, every admitted arity has emitted code in the model -/
+def emitDefinedOk (r : OptRow) : Bool :=
+  match shapeOf r with
+  | none => true
+  | some sh => [0, 1, 2, 3, 4].all fun n => !guardOk r.guard n || (emitShape sh 0 (List.replicate n 1) 2).isSome
+
+/-- ★ obligation on the regenerated tables: the emitter model covers every (fixed-arity row, admitted arity) -/
+theorem fixed_emit_defined : optimizers.all emitDefinedOk = true := by decide +kernel
+
+/-- ★ the INSTRUCTIONS a fixed-arity specialisation emits (get in put length next cmp resume cancel yield debug error propagate bnot; model
+    `Spec.emitShape` of `genericSS` / `genericSSI` / `opfunction` / fixed `opreduce` / `do_get` / `do_put` / `do_yield` / `do_debug` /
+    `do_error`, opcodes of the special handlers read from the regenerated skeletons), placed anywhere in a function and run on the caller's
+    slots with the operands in registers, compute `m` into the target register and leave every other register except the scratch one alone;
+    and running the generic function's REAL bytecode (regenerated words) on the same argument values computes the same `m`: same value or
+    error, same world. -/
+theorem fixed_emitted_eq_generic (hnil1 : ∀ v, P.eqv v P.nil = P.isNil v) (hnil2 : ∀ v, P.isNil v = true → v = P.nil)
+    (r : OptRow) (hr : r ∈ optimizers) (t : CoreFun) (ht : templateOf r.tag = some t)
+    (tgt tmp : Nat) (regs : List Nat) (s : List P.V) (m : M P P.V) (hm : evalInlineFixed P r (regs.map (s.getD · P.nil)) = some m)
+    (htgt : tgt < 256) (htmp : tmp < 256) (hregs : ∀ x ∈ regs, x < 256) (htt : tmp ≠ tgt) (htr : ∀ x ∈ regs, x ≠ tmp)
+    (hlen : tgt < s.length) (hlent : tmp < s.length) (hput : r.handler = .special "do_put" → ∀ x ∈ regs.drop 1, x ≠ tgt) :
+    ∃ sh, shapeOf r = some sh ∧
+      (∀ seg, emitShape sh tgt regs tmp = some seg → ∀ code pc, HasAt code pc seg →
+        ∃ upd, Computes P code s pc seg.length m upd (pc + seg.length) ∧ (∀ v, (upd v).getD tgt P.nil = v) ∧
+          ∀ v k, k ≠ tgt → k ≠ tmp → (upd v).getD k P.nil = s.getD k P.nil) ∧
+      ∀ w, ∃ gcode fuel, t.words.map decode = gcode.map some ∧
+        exec P gcode fuel (frameOf P t.slots (regs.map (s.getD · P.nil))) w = some (m w) := by
+  have hrow := List.all_eq_true.mp fixed_rows_ok.1 r hr
+  obtain ⟨sh, hsh, hd, hops, hslots, hmeq⟩ := evalInlineFixed_shape P hnil1 hnil2 r hrow t ht _ m hm
+  refine ⟨sh, hsh, ?_, ?_⟩
+  · intro seg hem code pc hat
+    have hput' : sh = .put → ∀ x ∈ regs.drop 1, x ≠ tgt := fun hp => hput (shapeOf_put r (hp ▸ hsh))
+    rw [hmeq]
+    exact shape_emit_computes P hnil1 hnil2 special_ops_ok sh hops tgt tmp regs seg hem t.slots hslots code s pc hat htgt htmp hregs htt htr
+      hlen hlent hput'
+  · exact fun w => fixed_inline_eq_generic P hnil1 hnil2 r hr t ht _ m hm w
+
+/-- the row of `get` in the regenerated table -/
+def getRow : OptRow := (optimizers.filter (·.handlerName == "do_get")).headD default
+
+/-- non-vacuity: `(get ds k dflt)` with the operands in registers 1 2 3 and the target 5 is `get 5 1 2; jmpnn 5 +2; movn 5 3`, and with the
+    target in the default's register the default is parked in the scratch register first -/
+example : shapeOf getRow = some (.getlike .get) ∧
+    emitShape (.getlike .get) 5 [1, 2, 3] 9 = some [mkABC .get 5 1 2, mkAI .jumpIfNotNil 5 2, mkAE .moveNear 5 3] ∧
+    emitShape (.getlike .get) 3 [1, 2, 3] 9 = some [mkAE .moveNear 9 3, mkABC .get 3 1 2, mkAI .jumpIfNotNil 3 2, mkAE .moveNear 3 9] := by
+  decide +kernel
+
+/-- non-vacuity: the value-level model is defined on that call (hypothesis `hm` of `fixed_emitted_eq_generic`), and the emitted code really
+    runs: on the witness universe `get` raises "unsupported", which is what the three instructions return from any frame -/
+example : (∃ m, evalInlineFixed Witness.WP getRow ([1, 2, 3].map ([Witness.WV.tab, .tab, .n 1, .n 7, .n 0, .n 0].getD · Witness.WP.nil)) = some m) ∧
+    exec Witness.WP [mkABC .get 5 1 2, mkAI .jumpIfNotNil 5 2, mkAE .moveNear 5 3, mkD .return 5] 9
+      ⟨[Witness.WV.tab, .tab, .n 1, .n 7, .n 0, .n 0], 0⟩ [] = some (.error "unsupported", []) :=
+  ⟨⟨_, rfl⟩, rfl⟩
 
 /-! ### `apply`: `do_apply` against the bytecode `make_apply` assembles; calls with a splice -/
 
